@@ -1,7 +1,7 @@
 ------------------------------ MODULE XSyntax ------------------------------
 (* The concrete syntax of X as xcmp's parser defines it (xcmp.hpp Parser),    *)
 (* over the token stream the lexer delivers (the lexer itself is Lex.tla's).  *)
-(* A token is <<type, text, value>> (value: the number of a NUMBER token, else 0); the list ends with END_OF_FILE or, at the first *)
+(* A token is <<type, text, value>> (value: the number of a NUMBER token, the bytes of a string, else 0); the list ends with END_OF_FILE or, at the first *)
 (* lexical error, with the pseudo-token ERROR.  The parser is predictive with *)
 (* one token of look-ahead; every function below is one of its procedures and *)
 (* returns [ok, p, n]: success, the position of the look-ahead token, and the *)
@@ -76,7 +76,8 @@ PElem(tk, p, d0) ==
          IF TT(tk, p + 1) = "(" THEN
             LET r == PCallArgs(tk, p + 2, d) IN IF ~r.ok THEN r ELSE Ok(r.p, NV("syscall", TX(tk, p), TV(tk, p), r.n))
          ELSE Ok(p + 1, NV("number", TX(tk, p), TV(tk, p), <<>>))
-    [] t = "string" -> Ok(p + 1, N("string", IF TT(tk, p + 1) = "string" THEN TX(tk, p + 1) ELSE TX(tk, p), <<>>))     \* StringReadAfterAdvance
+    [] t = "string" -> LET q == IF TT(tk, p + 1) = "string" THEN p + 1 ELSE p IN                         \* StringReadAfterAdvance
+                       Ok(p + 1, [N("string", TX(tk, q), <<>>) EXCEPT !.f = TV(tk, q)])      \* (f: the bytes of the literal)
     [] t = "true" -> Ok(p + 1, NV("boolean", "1", 1, <<>>))
     [] t = "false" -> Ok(p + 1, NV("boolean", "0", 0, <<>>))
     [] t = "(" -> LET r == PExpr(tk, p + 1, d) IN
